@@ -157,9 +157,6 @@ def _trace(eng: int, layout: Tuple[int, ...], evs: List[str]) -> List[Any]:
         await it.stop()
 
     common.drive(go())
-    for lo in range(0, 16 if quick else 64, 4):
-        out.append({"ob": "hashseed_independence", "params": {"group": [], "seeds": [lo + 1, lo + 5]}, "timeout": 300,
-                    "label": f"hashseed_independence[PYTHONHASHSEED {lo + 1}..{lo + 4}]"})
     return out
 
 
@@ -306,9 +303,6 @@ def items(tier: str, seed: int) -> List[Dict[str, Any]]:
                 for second in EVENTS:
                     out.append({"ob": "layout_independence", "params": {"group": GROUPS[g], "prefix": [first, second], "L": 4}, "timeout": 2400,
                                 "label": f"layout_independence[{g},K={len(GROUPS[g])},{first},{second}+2]"})
-    for lo in range(0, 16 if quick else 64, 4):
-        out.append({"ob": "hashseed_independence", "params": {"group": [], "seeds": [lo + 1, lo + 5]}, "timeout": 300,
-                    "label": f"hashseed_independence[PYTHONHASHSEED {lo + 1}..{lo + 4}]"})
     for lo in range(0, 16 if quick else 64, 4):
         out.append({"ob": "hashseed_independence", "params": {"group": [], "seeds": [lo + 1, lo + 5]}, "timeout": 300,
                     "label": f"hashseed_independence[PYTHONHASHSEED {lo + 1}..{lo + 4}]"})
